@@ -1,6 +1,6 @@
 /-
   Drv/CoreDrv.lean — `modeld core`: the core compiler model and core semantics.
-  line: `<program as rich> <args hex>*` → `K <compiled hex> <result>*` | `notcore` | `nocompile`
+  line: `<program as rich> <args hex>*` → `K <wf|notwf> <compiled hex> <result>*` | `notcore` | `nocompile`
         result = `V<hex>` | `F` | `U`
 -/
 import ChialispModel.Drv.RichIO
@@ -28,7 +28,7 @@ def line (l : String) : String :=
             match SerdeSpec.ofHex a with
             | some v => showRes (Core.evalProg Ops.chiaOps P 3000 v)
             | none => "bad-args")
-          " ".intercalate ("K" :: SerdeSpec.toHex code :: rs)
+          " ".intercalate ("K" :: (if Core.progWF P then "wf" else "notwf") :: SerdeSpec.toHex code :: rs)
     | none => "bad-input"
   | _ => "bad-input"
 
